@@ -150,7 +150,7 @@ def check_tables(case, rec):
 
 
 def search_tables(ctx):
-    ctx.given(build.ghe_case(months=st.sampled_from([12, 24, 60])), ctx.n(64, 1200), shrink=ctx.tier != "quick")
+    ctx.given_shared(build.ghe_case(months=st.sampled_from([12, 24, 60])), ctx.total(64, 1200))
 
 
 SUBS = [
